@@ -703,6 +703,21 @@ pub fn ta_ca_cert(key: usize, ca_repository: &uri::Rsync, notify: Option<&uri::H
     CaCert::root(cert, uri, 0).unwrap_or_else(|_| panic!("CaCert::root"))
 }
 
+/// A validated CA one level below `ta` (which must come from [`ta_ca_cert`] with pool key `ta_key`): the
+/// certificate is issued, encoded, decoded and validated like one found in a repository, so its SIA URIs
+/// are exactly what the engine would hand to the collector.
+pub fn child_ca_cert(ta: &Arc<CaCert>, ta_key: usize, child_key: usize, ca_repository: &uri::Rsync, notify: Option<&uri::Https>) -> Arc<CaCert> {
+    let ta_repo = ta.ca_repository().clone();
+    let issuer = gen::Issuer { key: ta_key, cert_uri: ta_repo.join(b"ta.cer").expect("uri"), crl_uri: ta_repo.join(b"ta.crl").expect("uri") };
+    let res = gen::Res { v4: vec![(std::net::Ipv4Addr::new(10, 1, 0, 0), 16)], v6: vec![], asn: vec![(64512, 64600)] };
+    let now = rpki::repository::x509::Time::now();
+    let mft = ca_repository.join(b"ca.mft").expect("manifest uri");
+    let bytes = gen::issue_ca_cert(&issuer, child_key, &res, gen::validity(now, -3600, 86400 * 10), Some(ca_repository), Some(&mft), notify, 77, None);
+    let cert = Cert::decode(bytes).expect("generated CA certificate decodes");
+    let cert = cert.validate_ca(ta.cert(), false).expect("generated CA certificate validates under the TA");
+    CaCert::chain(ta, ta_repo.join(b"child.cer").expect("uri"), cert, 32).unwrap_or_else(|_| panic!("CaCert::chain"))
+}
+
 /// Path of the local RRDP archive file for `notify` (routinator's own path function).
 pub fn archive_path(config: &Config, notify: &uri::Https) -> PathBuf {
     let mut c = config.clone();
